@@ -80,6 +80,11 @@ CHECKS = {
    "Bases: 3 policies (default, tight with small distinct bounds, huge channel sizes) x simple / on-chain validator x chain-state use on/off x commitment type x direction x entry point (setup_channel, sign_counterparty_commitment_tx_phase2, validate_holder_commitment_tx_phase2 with harness-made valid signatures) x commitment number 0 / 1. Deviations: commitment type, both delays around the policy range, channel value around the maximum, push value, claimed fee rate, each balance at dust edges / at the values that put the implied fee rate at min-1..max+2 / at 2^32- and 2^64-wrap candidates, added HTLCs at both trim limits, around the in-flight cap and 2^63, HTLC counts around the cap, expiries around height+delay and 500000000, funding depth / close seen, commitment number. Every case is executed on a fresh signer (blocks fed through the tracker for the on-chain validator) and the reference predicate is evaluated independently.",
    "Only accepted-and-outside-a-bound is a violation (the signer may be stricter). The claimed feerate is constrained through the trim limit only, as in the code.",
    "4.2"),
+ "C07": (True, "c07", "model_checking",
+   "deviation-bounded exhaustive enumeration (d=1 quick, d=2 thorough) of mutual-close requests over channel states reached by real commitment updates, both entry points, with a u128 reference predicate and a closing transaction built from first principles (cross-checked against LDK's builder on every case)",
+   "Bases: 10 channel states reached through validate/revoke/sign/revocation requests (both sides at commitment 0; at 1 with equal views; the two views differing by eps-1, eps, eps+1, -(eps+1), 2eps+1; an HTLC pending in the holder's, the counterparty's or both current commitments) x funder / fundee x commitment type x upfront shutdown script (none, wallet, allowlisted foreign) x entry point (semantic, raw transaction). Deviations: non-fee-payer's value at +-1, +-eps, +-(eps+1) and 0; fee at min-2, min, max, max+2, 0 and 900000 sat; holder script kind (wallet at the right / wrong / no path, allowlisted, foreign, upfront, absent); counterparty script absent; allowlist cleared between setup and signing; for the raw entry point output order, paths attached to the other output, version, locktime, sequence, prevout, extra output. Accepted => the reference holds (for the raw entry point: for some assignment of outputs to parties), the signature verifies against the independently built closing transaction spending the funding outpoint under the funding key, and channel_closed is set live and in a signer restored from a copy of the store.",
+   "epsilon 1000 sat, fee range 500..20000 sat/kw in the policy used; fee-rate rounding in the accepting direction.",
+   "4.3"),
  "C20": (True, "concur", "model_checking",
    "stateless model checking of the real Node under shuttle's runtime with an own preemption-bounded depth-first scheduler (iterative context bounding); linearizability by brute force against all sequential orders",
    "vls-core is built with --cfg vls_verif so that every Mutex of its prelude (node state, channel map, channel slots, tracker, monitor state, stores) is shuttle's. For each of ~110 scenarios (every unordered pair of 14 request kinds - commitment updates, forget/new/setup channel, balance, heartbeat, keysend, on-chain check and signature, block with the channel's close (compact and streamed), empty block, allowlist - plus the single-channel races validate||revoke, sign-holder||revoke, sign-counterparty||counterparty-revocation; thorough adds triples) every schedule of the request threads with <= 1 (2) preemptions is executed to completion on a freshly built node, and <= 2 (3) preemptions as far as the budget goes; a schedule that cannot complete is a deadlock, and the tuple (replies, fingerprint of live state and store) must equal that of some sequential order of the same requests.",
